@@ -192,6 +192,16 @@ static void fam_k6(int thorough) {	// entry points
 	for (int th = 1; th <= 3; th++) for (int bs = 0; bs < 3; bs++) for (int inp = 0; inp < 6; inp++) { if (!take()) continue; config c; cfg_lzma(&c, EN_MT, LZMA_FILTER_LZMA2, &OL[0]); c.threads = th; size_t L = inp == 0 ? 0 : inp == 1 ? 1 : inp == 2 ? 100 : inp == 3 ? 4097 : inp == 4 ? 20000 : 70001;
 		if (inp < 5) in_periodic(3, 3, L, (long)L / 2); else in_lcg(L, 11); c.block_size = bs == 0 ? (L / 3 ? L / 3 : 1) : bs == 1 ? (L ? L : 1) : 2 * L + 1; char t[64]; snprintf(t, sizeof t, " threads=%d block_size=%zu", th, c.block_size); strcat(c.name, t); n_cfg++; roundtrip(&c);
 		c.inchunk = 7; c.outchunk = 5; if (L <= 4097) roundtrip(&c); }
+	// threaded encoder, Blocks whose LZMA2 encoding ends within a byte or two of the uncompressed size (header reservation and the store-uncompressed fallback of the
+	// worker), with chains that make the Block Header a multiple of four before padding; every block size in a range, inputs = random prefix + repeated tail
+	for (int ch = 0; ch < 3; ch++) for (int th = 1; th <= 2; th++) { if (!take()) continue; config c; memset(&c, 0, sizeof c); c.entry = EN_MT; c.check = LZMA_CHECK_CRC32; c.threads = th; int n = 0;
+		OD[0] = (lzma_options_delta){ .type = LZMA_DELTA_TYPE_BYTE, .dist = 1 };
+		if (ch >= 1) c.f[n++] = (lzma_filter){ LZMA_FILTER_DELTA, &OD[0] }; if (ch == 2) c.f[n++] = (lzma_filter){ LZMA_FILTER_X86, NULL };
+		c.f[n++] = (lzma_filter){ LZMA_FILTER_LZMA2, &OL[0] }; c.f[n].id = LZMA_VLI_UNKNOWN; n_cfg++;
+		for (size_t bsz = 20; bsz <= 140; bsz++) for (int k = 0; k <= 12; k += (thorough ? 1 : 3)) { size_t L = bsz + bsz / 2; uint32_t x = (uint32_t)(bsz * 131 + (size_t)k); for (size_t i = 0; i < L; i++) { x = x * 1664525u + 1013904223u; inb[i] = (uint8_t)(x >> 24); }
+			for (size_t i = 0; i < (size_t)k && i + 1 < bsz; i++) inb[bsz - 1 - i] = inb[bsz - 2 - (size_t)k];	// k repeated bytes at the end of the first Block: the compressed size walks across the uncompressed size
+			inlen = L; snprintf(in_name, sizeof in_name, "random:len%zu,last %d bytes of the first Block repeated", L, k); c.block_size = bsz;
+			snprintf(c.name, sizeof c.name, "stream_encoder_mt chain=%slzma2(hc4,dict4096) threads=%d block_size=%zu", ch == 0 ? "" : ch == 1 ? "delta+" : "delta+x86+", th, bsz); roundtrip(&c); } }
 	// MicroLZMA with every output limit
 	for (int inp = 0; inp < 8; inp++) { if (!take()) continue; size_t L = inp == 0 ? 0 : inp == 1 ? 1 : inp == 2 ? 5 : inp == 3 ? 40 : inp == 4 ? 300 : inp == 5 ? 2000 : inp == 6 ? 64 : 700; if (inp >= 6) in_lcg(L, 4); else in_periodic(3, 5, L, (long)L / 3);
 		for (int o = 0; o < 2; o++) { config c; cfg_lzma(&c, EN_MICRO, LZMA_FILTER_LZMA1, &OL[o ? 2 : 0]); n_cfg++; size_t maxlim = L + L / 8 + 20;
@@ -233,6 +243,25 @@ static void fam_k7(int thorough) {	// hooks H1/H2: normalisation and window slid
 	(void)thorough;
 #endif
 }
+static void fam_k8(int thorough) {	// LZMA2 chunk limits: chunks end because 2 MiB of input or 64 KiB of output is reached while the optimiser has read ahead
+	lzma_options_lzma *o = &OL[3];
+	for (int v = 0; v < 4; v++) { if (lzma_lzma_preset(o, v & 1 ? (6 | LZMA_PRESET_EXTREME) : 6)) continue; o->dict_size = 1 << 20;
+		config c; cfg_lzma(&c, v < 2 ? EN_RAW_BUF : EN_STREAM, LZMA_FILTER_LZMA2, o); strcat(c.name, v & 1 ? " preset6e-options" : " preset6-options"); n_cfg++;
+		// Input shape that keeps the normal-mode optimiser's read-ahead large when a chunk limit is reached: r random bytes containing 26 chained 150-byte blocks
+		// (400 bytes apart, each starting with the last 30 bytes of the previous one), then those blocks again overlapping by 30 bytes (a new 150-byte match starts
+		// every 120 bytes, all shorter than nice_len = 273), then more random data.  (a) random part first, (b) 5000 zero bytes first and the input ends with the overlaps.
+		for (int shape = 0; shape < 2; shape++) { if (!take()) continue; o->nice_len = 273;
+			for (size_t r = (shape ? 61000 : 65000); r <= (shape ? 62500 : 65700); r += (thorough ? 1 : 2)) { size_t z = shape ? 5000 : 0; uint8_t *p = inb + z; memset(inb, 0, z); uint32_t x = 2463534242u;
+				for (size_t i = 0; i < r; i++) { x ^= x << 13; x ^= x >> 17; x ^= x << 5; p[i] = (uint8_t)(x >> 9); }
+				for (size_t k = 1; k < 26; k++) memcpy(p + 1000 + 400 * k, p + 1000 + 400 * (k - 1) + 120, 30);
+				size_t n = z + r; memcpy(inb + n, p + 1000, 150); n += 150; for (size_t k = 1; k < 26; k++) { memcpy(inb + n, p + 1000 + 400 * k + 30, 120); n += 120; }
+				if (!shape) for (size_t i = 0; i < 20000; i++) inb[n + i] = p[(i * 7 + 13) % r] ^ (uint8_t)i, (void)0; if (!shape) n += 20000;
+				inlen = n; snprintf(in_name, sizeof in_name, "%srandom(%zu)+26 overlapping 150-byte matches%s", shape ? "0*5000+" : "", r, shape ? "" : "+random(20000)"); roundtrip(&c); } }
+		// (c) more than 2 MiB that compress better than 34:1 (60-byte records): the 2 MiB uncompressed limit ends the chunk
+		if (take()) { for (size_t L = (2u << 20) + 3000; L <= (3u << 20); L += (thorough ? 40009 : 400009)) { for (size_t i = 0; i + 60 <= L + 60 && i < L; i += 60) { char rec[64]; snprintf(rec, sizeof rec, "record %07zu of the same sixty-byte layout, padded, dots.\n", i / 60); memcpy(inb + i, rec, L - i < 60 ? L - i : 60); } inlen = L;	/* every record differs from its neighbours in the counter: matches stay shorter than nice_len */ snprintf(in_name, sizeof in_name, "60-byte-records:len%zu", L); roundtrip(&c); c.inchunk = 997; roundtrip(&c); c.inchunk = 0; } }
+	}
+	(void)thorough;
+}
 static void fam_bound(int thorough) {	// out_size = *_bound(n) never fails for lack of space
 	set_lzma(&OL[0], 4096, 3, 0, 2, LZMA_MODE_FAST, 8, LZMA_MF_HC3, 0); lzma_filter f[2] = { { LZMA_FILTER_LZMA2, &OL[0] }, { LZMA_VLI_UNKNOWN, NULL } };
 	size_t maxn = thorough ? 16384 : 2048;	// every length up to maxn; around every multiple of the 64 KiB LZMA2 chunk size +-8 (thorough +-64); thorough: every 61st length in between
@@ -254,7 +283,7 @@ int main(int argc, char **argv) {
 	inb = malloc(MAXIN + 64); comp = malloc(MAXIN + MAXIN / 2 + 70000); dec = malloc(MAXIN + 64); refo = malloc(MAXIN + 16384);
 	const char *f = argv[1];
 	if (!strcmp(f, "k1")) fam_k1(thorough); else if (!strcmp(f, "k2")) fam_k2(thorough); else if (!strcmp(f, "k3")) fam_k3(thorough); else if (!strcmp(f, "k4")) fam_k4(thorough);
-	else if (!strcmp(f, "k5")) fam_k5(thorough); else if (!strcmp(f, "k6")) fam_k6(thorough); else if (!strcmp(f, "k7")) fam_k7(thorough); else if (!strcmp(f, "bound")) fam_bound(thorough);
+	else if (!strcmp(f, "k5")) fam_k5(thorough); else if (!strcmp(f, "k6")) fam_k6(thorough); else if (!strcmp(f, "k7")) fam_k7(thorough); else if (!strcmp(f, "k8")) fam_k8(thorough); else if (!strcmp(f, "bound")) fam_bound(thorough);
 	lzma_end(&ENC); lzma_end(&DEC);
 	printf("STAT evals=%ld distinct=%ld configs=%ld reference_validations=%ld configs_refused_by_library=%ld\n", n_rt, n_rt, n_cfg, n_refchecks, n_skipped_cfg);
 	if (sh == 0) printf("SAMPLE %s\n", h_case);
